@@ -194,6 +194,17 @@ def verify_contract(qn, timeout_ms, only_variant=None):
                         rec["replay"] = replay_objects(program, con, f, node, values)
                     except Exception as e:
                         rec["replay"] = {"reproduced": False, "error": repr(e)[:300]}
+                if not (rec.get("replay") or {}).get("reproduced") and con.witnesses is not None:
+                    consts = {k: sh.value for k, sh in variant.items() if isinstance(sh, _Const)}
+                    for w in con.witnesses():
+                        try:
+                            o2 = replay_objects(program, con, f, node, {**consts, **w})
+                        except Exception:
+                            continue
+                        if o2.get("reproduced"):
+                            o2["source"] = "concrete witness of the contract's witness list (the counter-model's opaque parts could not be rebuilt)"
+                            rec["replay"] = o2
+                            break
                 rec["variant"] = {k: repr(v)[:100] for k, v in variant.items()}
             out["obligations"].append(rec)
     if con.frame_only and not any(o["kind"] == "frame" and o["status"] != "proved" for o in out["obligations"]):
